@@ -348,13 +348,26 @@ def check_reuse_and_faulty_callback(rec, W):
                 prev_cb, prev_close = 0, [0 for _ in spies]
                 for serve in (1, 2, 3):
                     it, st, hd = r.get_wsgi_response(create_environ("/", method=method))
+                    sent = None
                     try:
-                        b"".join(it)
+                        sent = b"".join(it)
                     except Exception:  # noqa: BLE001  (a body that was consumed / closed by the previous serve)
                         pass
                     if hasattr(it, "close"):
                         it.close()
                     rec.observe("responses_served_again")
+                    if kind == "list":
+                        # the body sequence is edited in place between two serves (response.response.append, stream.write):
+                        # the length announced is that of the body as it is now
+                        clh = dict((k_.lower(), v_) for k_, v_ in hd).get("content-length")
+                        now_len = sum(len(x_) for x_ in r.response)
+                        if status == 200 and clh is not None and int(clh) != now_len:
+                            rec.violation("C05/H2-content-length-mismatch", f"serve {serve} of the same response ({method}): Content-Length {clh}, the body now has {now_len} bytes: {case}", case, monitor="H2")
+                            break
+                        if status == 200 and method == "GET" and sent is not None and len(sent) != now_len:
+                            rec.violation("C05/body-bytes-differ", f"serve {serve}: {sent!r}", case, monitor="body")
+                            break
+                        r.response.append(b"+more" * serve)
                     if c[0] - prev_cb != 1:
                         rec.violation("C05/H5-close-callback-ran-%d-times" % (c[0] - prev_cb), f"serve {serve} of the same response: {case}", case, monitor="H5")
                         break
